@@ -4,25 +4,30 @@
    applicable case, cases pairwise different, every planted construct is one line) and the text-derived line index
    agrees with a running newline counter on every prefix of the spec's own sample texts.
 2. The harness (c15) renders every applicable case of the index-addressed cross product
-   kind x file x position x preceding-text shape to a three-file project, compiles the unplanted and the planted
+   kind x file x position x preceding-text shape x layout of the imported modules (rel) to a multi-file project
+   (main.sy, other.sy, sub/inner.sy and the leaf modules leaf.sy / twin.sy), compiles the unplanted and the planted
    program through the public API and records file/line of the FIRST error. TLC (Trace_Diag) re-derives each case from
    its index, checks that the marker points at the construct the spec spells and that the preceding text has the named
    shape, computes the expected file/line from the recorded text and prints one REJECT line per non-conforming record.
 3. Seeded random variations (several shapes stacked, CRLF/tabs mixed in, planting up to three ifs deeper).
-4. Negative controls: corrupted observations (line shifted by one, file swapped) and a stub re-creating the
-   tokenizer regression fixed by e1d1e87 must be rejected by TLC.
+4. Negative controls: corrupted observations (line shifted by one, file swapped), a stub re-creating the
+   tokenizer regression fixed by e1d1e87 (newlines in literals not counted), a stub counting a literal's lines
+   with str::lines() (a literal ending in a newline is one line short) and a stub relating line numbers of
+   different files for colliding imports must be rejected by TLC - and only where the spec says they matter.
 """
 import json
 import os
 import vlib
 
 PID = "C15"
-ACTIONS = ("TraceInit", "TraceConforms")
-DUP = ("dup_global", "dup_import", "dup_from_import")
+ACTIONS = ("TraceInit", "TraceCheck", "TraceConforms")
+DUP = ("dup_global", "dup_import", "dup_from_import", "dup_use_use", "dup_from_from", "dup_from_use", "dup_use_from")
 
 
 def signature(rec, why):
-    return "C15|%s|%s|%s|reported=%s" % (rec["kind"], rec["file"], rec["shape"], why)
+    # the layout of the imported modules is part of the signature only where it is not the plain one
+    rel = "" if rec.get("rel", "def_earlier") == "def_earlier" else rec["rel"] + "|"
+    return "C15|%s|%s|%s|%sreported=%s" % (rec["kind"], rec["file"], rec["shape"], rel, why)
 
 
 def line_of(text, marker):
@@ -32,7 +37,7 @@ def line_of(text, marker):
 def sample_of(rec, full):
     lines = full["files"][full["path"]].split("\n")
     pl = line_of(rec["text"], rec["marker"])
-    return {"kind": rec["kind"], "file": rec["file"], "pos": rec["pos"], "shape": rec["shape"],
+    return {"kind": rec["kind"], "file": rec["file"], "pos": rec["pos"], "shape": rec["shape"], "rel": rec["rel"],
             "planted": "%s:%d: %s" % (rec["path"], pl, lines[pl - 1].strip()),
             "reported": "%s:%d" % (rec["efile"], rec["eline"]) if rec["res"] == "err" else rec["res"]}
 
@@ -72,7 +77,8 @@ def validate(wd, name, trace, fullpath, universe, ev, verdicts, workers=None, gu
             line_of(rec["text"], rec["marker"]), rec["pos"], rec["shape"],
             ("at %s:%d" % (rec["efile"], rec["eline"])) if rec["res"] == "err" else ("as " + rej["why"]))
         if rec["kind"] in DUP:
-            what += " (the later of the two definition sites is %s:%d)" % (rej["expected_file"], rej["expected_line"])
+            what += " (the later of the two introductions of the name is %s:%d; imported modules laid out %s)" % (
+                rej["expected_file"], rej["expected_line"], rec["rel"])
         verdicts.add(sig, what, {"case": full["case"], "files": full["files"], "path": full["path"],
                                  "planted_line": line_of(rec["text"], rec["marker"]),
                                  "expected": {"file": rej["expected_file"], "line": rej["expected_line"]},
@@ -92,46 +98,84 @@ def validate(wd, name, trace, fullpath, universe, ev, verdicts, workers=None, gu
     return recs, fulls, bad
 
 
-def control_corrupt(wd, recs, bad):
+def corrupt_records(recs, bad):
     """(a) corrupt observations of conforming records: TLC must reject exactly those."""
     badset = {x["rec"] for x in bad}
     good = [x for i, x in enumerate(recs) if (i + 1) not in badset and x["base_ok"] and x["res"] == "err"]
-    picked = good[::max(1, len(good) // 120)]
-    out, want = [], {}
+    picked = good[::max(1, len(good) // 150)]
+    out = []
     for i, x in enumerate(picked):
         y = dict(x)
         if i % 3 == 0:
-            y["eline"], want[i + 1] = x["eline"] + 1, "later"
+            y["eline"], want = x["eline"] + 1, "later"
         elif i % 3 == 1 and x["eline"] > 1:
-            y["eline"], want[i + 1] = x["eline"] - 1, "earlier"
+            y["eline"], want = x["eline"] - 1, "earlier"
         else:
-            y["efile"], want[i + 1] = ("other.sy" if x["path"] != "other.sy" else "main.sy"), "other-file"
-        out.append(y)
-    path = os.path.join(wd, "neg-corrupt.ndjson")
-    vlib.write_ndjson(path, out)
-    _, rejects = run_tlc(wd, "neg-corrupt", path, "part")
+            y["efile"], want = ("other.sy" if x["path"] != "other.sy" else "main.sy"), "other-file"
+        out.append((y, want))
+    return out
+
+
+def stub_records(wd, stub, shapes=None, kinds=None, files=None):
+    t, f = os.path.join(wd, "neg-%s-all.ndjson" % stub), os.path.join(wd, "neg-%s-cases.ndjson" % stub)
+    env = {"C15_STUB": stub, "C15_SHAPES": ",".join(shapes or ()), "C15_KINDS": ",".join(kinds or ()),
+           "C15_FILES": ",".join(files or ())}
+    vlib.harness("c15", ["cross", t, f], env=env)
+    return vlib.read_ndjson(t)
+
+
+def controls(wd, recs, bad, stats):
+    """Negative controls, validated by ONE TLC run over the concatenated control records (universe 'part').
+    Every control record carries what TLC must say about it: a verdict class, 'reject' (any class), 'conform',
+    or None (not constrained)."""
+    bad_sigs = {signature(recs[x["rec"] - 1], "earlier") for x in bad}
+    ends_nl = set(stats["ends_nl_shapes"])
+    plain_ml = ["ml_string2", "ml_string3", "str_startnl_init", "str_blankmid_arg", "str_crlfmid_stmt"]
+    if ends_nl & set(plain_ml) or not ends_nl:
+        vlib.tool_error("the spec's EndsNLShapes and the control's list of other multi-line shapes overlap")
+    items = [("corrupt", y, want) for (y, want) in corrupt_records(recs, bad)]
+    # (b) newlines inside string literals are not counted at all (the regression fixed by e1d1e87)
+    for x in stub_records(wd, "f1", shapes=["none", "ml_string2", "ml_string3", "str_endnl_arg", "str_onlynl_stmt"]):
+        want = None
+        if x["shape"] == "none":
+            want = None if signature(x, "earlier") in bad_sigs else "conform"
+        elif x["kind"] not in DUP:
+            want = "earlier"
+        items.append(("f1", x, want))
+    # (c) a literal's newlines counted with str::lines(): one line short iff the content ends with a newline
+    for x in stub_records(wd, "lines", shapes=["none"] + sorted(ends_nl) + plain_ml, files=["main", "sub"]):
+        want = None
+        if x["shape"] not in ends_nl:
+            want = None if signature(x, "earlier") in bad_sigs else "conform"
+        elif x["kind"] not in DUP:
+            want = "earlier"
+        items.append(("lines", x, want))
+    # (d) line numbers of different files related to each other when ordering the introductions of an imported name
+    for x in stub_records(wd, "xfile", shapes=["none", "str_endnl_init", "tabs"], kinds=sorted(stats["from_kinds"])):
+        items.append(("xfile", x, "other-file" if x["rel"] == "def_later" else "conform"))
+    path = os.path.join(wd, "neg-controls.ndjson")
+    vlib.write_ndjson(path, [y for (_, y, _) in items])
+    _, rejects = run_tlc(wd, "neg-controls", path, "part")
     got = {x["rec"]: x["why"] for x in rejects}
-    if got != want or not want:
-        vlib.tool_error("negative control accepted: %d corrupted observations, TLC rejected %d as expected" % (
-            len(want), sum(1 for q in want if got.get(q) == want[q])))
-    return len(want)
-
-
-def control_stub(wd, bad_sigs):
-    """(b) a stub that does not count newlines inside string literals (the regression fixed by e1d1e87)."""
-    t, f = os.path.join(wd, "neg-f1-all.ndjson"), os.path.join(wd, "neg-f1-cases.ndjson")
-    vlib.harness("c15", ["cross", t, f], env={"C15_STUB": "f1"})
-    recs = [x for x in vlib.read_ndjson(t) if x["shape"] in ("none", "ml_string2", "ml_string3")]
-    path = os.path.join(wd, "neg-f1.ndjson")
-    vlib.write_ndjson(path, recs)
-    _, rejects = run_tlc(wd, "neg-f1", path, "part")
-    got = {x["rec"] for x in rejects}
-    ml = {i + 1 for i, x in enumerate(recs) if x["shape"] != "none" and x["kind"] not in DUP}
-    plain = {i + 1 for i, x in enumerate(recs) if x["shape"] == "none" and signature(x, "earlier") not in bad_sigs}
-    if not ml or not ml <= got or (plain & got):
-        vlib.tool_error("negative control accepted: stub tokenizer losing newlines in strings: %d of %d multi-line cases "
-                        "rejected, %d plain cases rejected" % (len(ml & got), len(ml), len(plain & got)))
-    return len(ml)
+    counts = {}
+    for i, (name, _, want) in enumerate(items):
+        why = got.get(i + 1)
+        c = counts.setdefault(name, {"records": 0, "must_reject": 0, "rejected_as_required": 0, "must_conform": 0,
+                                     "wrongly_rejected": 0})
+        c["records"] += 1
+        if want == "conform":
+            c["must_conform"] += 1
+            c["wrongly_rejected"] += why is not None
+        elif want is not None:
+            c["must_reject"] += 1
+            c["rejected_as_required"] += (why == want)
+    for name, c in counts.items():
+        if c["must_reject"] == 0 or c["rejected_as_required"] != c["must_reject"] or c["wrongly_rejected"]:
+            vlib.tool_error("negative control %s accepted: %s" % (name, json.dumps(c)))
+    for name in ("f1", "lines", "xfile"):
+        if counts[name]["must_conform"] == 0:
+            vlib.tool_error("negative control %s has no case that must stay conforming" % name)
+    return counts
 
 
 def run(ctx):
@@ -164,7 +208,10 @@ def run(ctx):
         if r.coverage.get(act, (0, 0))[1] == 0:
             vlib.tool_error("vacuity: spec action %s never taken" % act)
     stats = r.records[0][1] if r.records else vlib.tool_error("MC_Diag printed no STATS record")
-    ev.set(spec_model={"states": r.distinct, "sample_texts": stats["samples"], "universe": stats,
+    ev.set(spec_model={"states": r.distinct, "sample_texts": stats["samples"],
+                       "universe": {k: v for k, v in stats.items() if not isinstance(v, list)},
+                       "shape_names": stats["shape_names"], "shapes_ending_a_literal_with_a_newline": stats["ends_nl_shapes"],
+                       "kinds_with_module_layout_dimension": stats["from_kinds"],
                        "invariants": ["LineAgrees", "ColSane", "SampleLineOK"], "assumes": ["UniverseOK"],
                        "tlc_wall_s": round(r.wall_s, 1)})
     ev.add("states", r.distinct)
@@ -191,19 +238,25 @@ def run(ctx):
     distinct = len({vlib.sha(x["files"]) for x in fulls + ffulls if x["base_ok"] and x["res"] != "ok"})
 
     # 4. negative controls (binding demonstrations)
-    n_a = control_corrupt(wd, recs, bad)
-    n_b = control_stub(wd, {signature(recs[i - 1], "earlier") for i in badset})
-    ev.set(negative_controls_rejected=n_a + n_b,
-           negative_controls={"corrupted_observations_rejected": n_a, "stub_f1_multiline_cases_rejected": n_b})
+    counts = controls(wd, recs, bad, stats)
+    ev.set(negative_controls_rejected=sum(c["rejected_as_required"] for c in counts.values()),
+           negative_controls={
+               "corrupted_observations": counts["corrupt"], "stub_f1_newlines_in_literals_not_counted": counts["f1"],
+               "stub_lines_literal_ending_in_newline_one_short": counts["lines"],
+               "stub_xfile_line_numbers_related_across_files": counts["xfile"]})
 
     ev.set(samples=samples, exhaustive=True, exhaustive_scope="the cross product; the random variations are sampled",
            distinct_nontrivial=distinct,
-           rule="every applicable case of kind(14) x file(3) x position(5) x preceding shape(9), index-addressed in "
-                "SyltDiag!Case, plus %d seeded random variations; a case is non-trivial when its base program compiles and "
-                "the planted program (base + exactly the one planted line) is rejected; distinct planted projects are counted" % nfree,
+           rule="every applicable case of kind(%d) x file(%d) x position(%d) x preceding shape(%d) x layout of the imported "
+                "modules(%d; only for duplicates involving a name import), index-addressed in SyltDiag!Case (%d applicable of %d), "
+                "plus %d seeded random variations; a case is non-trivial when its base program compiles and the planted program "
+                "(base + exactly the one planted line) is rejected; distinct planted projects are counted" % (
+                    stats["kinds"], stats["files"], stats["positions"], stats["shapes"], stats["rels"], stats["applicable"],
+                    stats["ncases"], nfree),
            known_findings_hit=verdicts.known_hits)
     ev.assume("TLC and SyltDiag are the reference: expected line = 1 + number of newline characters before the planted "
-              "construct in the file's text; for duplicate names the textually later definition site is the offending one",
+              "construct in the file's text; for duplicate names the textually later of the two introductions (definition, "
+              "`use`, `from .. use`) in the file that holds both is the offending one, wherever the imported names are defined",
               "non-ASCII characters are shown to TLC as '@' (character-for-character); the compiler sees the real text",
               "planted constructs are single-line, so 'the line where the construct is written' is unambiguous",
               "only the FIRST returned error's file and span.line_start are observed, never message texts")
